@@ -277,7 +277,7 @@ _TTC_COMMON = dict(
     locals={"ttGlyphs": Dict(STR, Ref("C02_TTGlyph"))},
 )
 _TTC_INV = {
-    "round": "round == (1 if self.roundCoordinates else 0)",
+    # (`round` is assigned once before the loop and never inside it, so its value needs no invariant)
     "no-cubic-so-far": "implies(self.glyphDataFormat == 0, all(not " + _CUBIC.format(g=_G) + " for a in range(i)))",
 }
 
